@@ -83,6 +83,37 @@ def adapter_instance(I, repo, a):
     return obj
 
 
+def base_value(below, base, base_args, data):
+    """what construct's own constructs under an adapter hand to its `_decode` for the field bytes ``data`` (model of Bytes,
+    PaddedString, GreedyBytes in a window, NullStripped, StringEncoded); None when something else is in between"""
+    if base == "Bytes":
+        v = data
+    elif base == "PaddedString":
+        enc = (base_args or {}).get("enc") or "utf8"
+        v = data.rstrip(b"\x00").decode(enc)
+    else:
+        return None
+    for w in reversed(below):
+        if w.get("kind") != "wrapper":
+            return None
+        if w["cls"] == "NullStripped":
+            pad = w["args"]["pad"]
+            if not isinstance(v, bytes) or not pad:
+                return None
+            while v.endswith(pad):
+                v = v[: len(v) - len(pad)]
+        elif w["cls"] == "StringEncoded":
+            if not isinstance(v, bytes):
+                return None
+            v = v.decode(w["args"]["encoding"])
+        else:
+            return None
+    return v
+
+
+TEXT_ADAPTERS = ("AsciiInteger", "AsciiFloat", "PaddedString", "StripNullBytes")
+
+
 def adapter_values(chk, repo, L, rule, keys):
     """every (adapter class, constructor attributes) used in the layouts ``keys``: `_decode` on representative raw values"""
     from ..repeval import from_shape, Undecided
@@ -90,15 +121,16 @@ def adapter_values(chk, repo, L, rule, keys):
     seen = {}
     for key in keys:
         for lf in L.by_name(key).values():
-            for a in lf.chain:
+            for i, a in enumerate(lf.chain):
                 if a.get("kind") != "adapter":
                     continue
                 plain = a.get("attrs") or {}
-                sig = (a.get("cls"), repr(sorted((k, repr(v)) for k, v in plain.items())))
-                seen.setdefault(sig, (a, f"{key}:{lf.name}"))
+                below = lf.chain[i + 1:]
+                sig = (a.get("cls"), repr(sorted((k, repr(v)) for k, v in plain.items())), repr([(w.get("cls"), w.get("attrs")) for w in below]), lf.base)
+                seen.setdefault(sig, (a, f"{key}:{lf.name}", below, lf))
     I = Interp(repo)
     n = 0
-    for (cls, _), (a, where0) in sorted(seen.items(), key=lambda kv: kv[0]):
+    for (cls, _, _, _), (a, where0, below, lf) in sorted(seen.items(), key=lambda kv: kv[0]):
         spec = _spec(cls, a.get("attrs") or {})
         if spec is None:
             continue
@@ -112,6 +144,21 @@ def adapter_values(chk, repo, L, rule, keys):
         bad = None
         for raw in values:
             want = want_fn(raw)
+            shown = raw
+            if cls in TEXT_ADAPTERS and isinstance(raw, (str, bytes)):
+                # the field's bytes, through construct's own constructs under the adapter (whatever they are), then through `_decode`
+                data = raw.encode("ascii") if isinstance(raw, str) else raw
+                try:
+                    handed = base_value(below, lf.base, getattr(lf, "base_args", None), data)
+                except (UnicodeDecodeError, LookupError) as e:
+                    handed = None
+                    got = f"<the wrapped construct raises {type(e).__name__}>"
+                    n += 1
+                    if bad is None:
+                        bad = (data, got, want)
+                    continue
+                if handed is not None:
+                    raw, shown = handed, data
             arg = DictS({k: Const(v) for k, v in raw.items()}) if isinstance(raw, dict) else Const(raw)
             if isinstance(raw, dict):
                 # a parsed Container: fields readable as attributes and as items
@@ -126,10 +173,10 @@ def adapter_values(chk, repo, L, rule, keys):
                 raise AnalysisError(f"{where}: cannot be evaluated on {raw!r}: {str(e)[:120]}")
             n += 1
             if not _same(got, want) and bad is None:
-                bad = (raw, got, want)
+                bad = (shown, got, want)
         attrs_txt = ", ".join(f"{k}={v!r}" for k, v in (a.get("attrs") or {}).items() if not isinstance(v, dict))[:60]
         chk.require(bad is None, rule, where, f"{cls}({attrs_txt}) decodes {len(values)} representative raw values as specified (used at {where0})",
-                    f"{cls}({attrs_txt})._decode({bad[0]!r}) gives {bad[1]!r}, the field encodes {bad[2]!r} (used at {where0})" if bad else "", key=f"adapter-values:{cls}:{attrs_txt[:30]}",
+                    f"{cls}({attrs_txt}) decodes the field content {bad[0]!r} to {bad[1]!r}, the field encodes {bad[2]!r} (used at {where0})" if bad else "", key=f"adapter-values:{cls}:{attrs_txt[:30]}",
                     sample={"adapter": cls, "values": len(values)})
     if n == 0:
         raise AnalysisError("no adapter with a specification found in the layouts")
